@@ -92,6 +92,8 @@ Definition tr_io (i : mio) : tr :=
   | IOSM vv jv => TL [TN 3; tr_oview vv; tr_oview jv]
   | IOGossip c v n nl => TL [TN 4; tr_oview c; tr_oview v; tr_oview n; tr_oview nl]
   | IOEmpty => TL [TN 5]
+  | IOGEmpty => TL [TN 6]
+  | IORestarted => TL [TN 9]
   end.
 
 (** observation of mirror + managers: the five store/view components, what the consumer got from
@@ -230,5 +232,40 @@ Fixpoint conv_trace_bad (cls : N) (i : nat) (s : kstate) (steps : list (xop * N 
       match xstep s x with
       | Ok (s', _) => conv_trace_bad cls (S i) s' rest
       | Panic _ => None
+      end
+  end.
+
+(** * C11, second sentence (gossip): the votes that justified a nil commit reach the gossip
+    strategy.  The kernel keeps ONE nil-voted-round snapshot; this monitor follows the model's
+    events next to the implementation's reads and reports the step at which a snapshot that was
+    never delivered is replaced by the next one. *)
+Fixpoint nil_events (evs : list mev) : list view :=
+  match evs with
+  | [] => []
+  | EvNil v :: rest => v :: nil_events rest
+  | _ :: rest => nil_events rest
+  end.
+
+Fixpoint c11_nil_bad (i : nat) (s : mstate) (pending : bool) (steps : list (mop * N * tr)) : option nat :=
+  match steps with
+  | [] => None
+  | (o, _, ob) :: rest =>
+      match mstep s o with
+      | Panic _ => None
+      | Ok (s', _, io) =>
+          match o with
+          | MK x =>
+              if is_restart_x x then c11_nil_bad (S i) s' false rest else
+              let nils := nil_events (skipn (List.length (st_ev (ms_k s))) (st_ev (ms_k s'))) in
+              match nils with
+              | [] => c11_nil_bad (S i) s' pending rest
+              | _ => if pending then Some i else c11_nil_bad (S i) s' true rest
+              end
+          | MGRead =>
+              (* the implementation's read: did it carry a nil-voted round? *)
+              let got := match tls (nth_tr (nth_tr ob 5) 4) with [_] => true | _ => false end in
+              c11_nil_bad (S i) s' (if got then false else pending) rest
+          | _ => c11_nil_bad (S i) s' pending rest
+          end
       end
   end.
